@@ -113,37 +113,38 @@ type DiskProj struct {
 }
 
 type NodeState struct {
-	ID       uint64      `json:"id"`
-	Alive    bool        `json:"alive"`
-	Born     bool        `json:"born"`
-	Removed  bool        `json:"removed,omitempty"`
-	Term     uint64      `json:"term"`
-	Vote     uint64      `json:"vote"`
-	Role     int         `json:"role"`
-	Lead     uint64      `json:"lead"`
-	Commit   uint64      `json:"commit"`
-	Applied  uint64      `json:"applied"`
-	First    uint64      `json:"first"`
-	Last     uint64      `json:"last"`
-	UOff     uint64      `json:"uoff"`
-	Learner  bool        `json:"learner,omitempty"`
-	Voters   []uint64    `json:"voters,omitempty"`
-	Learners []uint64    `json:"learners,omitempty"`
-	Votes    [][2]uint64 `json:"votes,omitempty"`
-	Prs      []PrProj    `json:"prs,omitempty"`
-	USnap    *SnapProj   `json:"usnap,omitempty"`
-	Dummy    uint64      `json:"dummy"`
-	Log      []EntProj   `json:"log,omitempty"`
-	LogErr   string      `json:"logerr,omitempty"`
-	Transfer uint64      `json:"transferee,omitempty"`
-	PendConf bool        `json:"pendingconf,omitempty"`
-	Elapsed  int         `json:"elapsed"`
-	RandTmo  int         `json:"randtmo"`
-	InFlight []string    `json:"inflight,omitempty"`
-	AQ       int         `json:"aq,omitempty"`
-	Blocked  bool        `json:"blocked,omitempty"`
-	App      AppProj     `json:"app"`
-	Disk     *DiskProj   `json:"disk,omitempty"`
+	ID          uint64      `json:"id"`
+	Alive       bool        `json:"alive"`
+	Born        bool        `json:"born"`
+	Removed     bool        `json:"removed,omitempty"`
+	Term        uint64      `json:"term"`
+	Vote        uint64      `json:"vote"`
+	Role        int         `json:"role"`
+	Lead        uint64      `json:"lead"`
+	Commit      uint64      `json:"commit"`
+	Applied     uint64      `json:"applied"`
+	First       uint64      `json:"first"`
+	Last        uint64      `json:"last"`
+	UOff        uint64      `json:"uoff"`
+	Learner     bool        `json:"learner,omitempty"`
+	Voters      []uint64    `json:"voters,omitempty"`
+	Learners    []uint64    `json:"learners,omitempty"`
+	Votes       [][2]uint64 `json:"votes,omitempty"`
+	Prs         []PrProj    `json:"prs,omitempty"`
+	USnap       *SnapProj   `json:"usnap,omitempty"`
+	Dummy       uint64      `json:"dummy"`
+	Log         []EntProj   `json:"log,omitempty"`
+	LogErr      string      `json:"logerr,omitempty"`
+	StorageTail bool        `json:"storage_tail,omitempty"` // the log was read from the storage beyond unstable.offset (see project)
+	Transfer    uint64      `json:"transferee,omitempty"`
+	PendConf    bool        `json:"pendingconf,omitempty"`
+	Elapsed     int         `json:"elapsed"`
+	RandTmo     int         `json:"randtmo"`
+	InFlight    []string    `json:"inflight,omitempty"`
+	AQ          int         `json:"aq,omitempty"`
+	Blocked     bool        `json:"blocked,omitempty"`
+	App         AppProj     `json:"app"`
+	Disk        *DiskProj   `json:"disk,omitempty"`
 }
 
 // Record is one line of the trace.
@@ -291,6 +292,20 @@ func (c *Cluster) nodeState(nd *nodeRT) NodeState {
 	}
 	s.Dummy = st.DummyTerm
 	s.LogErr = st.LogErr
+	if st.LogErr != "" && st.UnstableLen == 0 && !st.HasUnstableSnap && st.LastIndex >= st.UnstableOffset && st.FirstIndex <= st.LastIndex {
+		// RocksStorage.ApplySnapshot keeps the keys above the snapshot index: once the unstable snapshot is stabilised,
+		// lastIndex() comes from the storage and lies beyond unstable.offset-1 (nothing unstable). The hook's one-piece
+		// slice(first, last+1) is a read production never issues in that state (only a leader slices its tail, and such
+		// a node cannot win an election); term() and a restart read those entries from the storage, so does the projection.
+		if ents, err := nd.st.Entries(st.FirstIndex, st.LastIndex+1, ^uint64(0)); err == nil {
+			s.LogErr = ""
+			s.StorageTail = true
+			st.Log = st.Log[:0]
+			for _, e := range ents {
+				st.Log = append(st.Log, raft.VerifEntry{Index: e.Index, Term: e.Term, Type: int32(e.Type), Data: e.Data, Size: e.Size()})
+			}
+		}
+	}
 	for _, e := range st.Log {
 		s.Log = append(s.Log, projEnt(pb.Entry{Index: e.Index, Term: e.Term, Type: pb.EntryType(e.Type), Data: e.Data}))
 	}
